@@ -31,9 +31,10 @@ func main() {
 		}
 		run.Finish()
 	}
+	run.Shard(4)
 	signingFees(run)
 	oracleSignFees(run)
-	sim.Parallel(run.N(120, 3000), 16, func(i int) { dataRequestFees(run, i) })
+	sim.ParallelCases(run.N(120, 3000), 16, func(i int) { dataRequestFees(run, i) })
 	for _, c := range []string{"req-paid", "member-payouts", "req-rejected-over-limit", "ledger-blocks-checked", "oracle-req-paid", "oracle-req-free",
 		"oracle-req-rejected-over-limit", "oracle-req-rejected-insufficient-balance", "oracle-ledger-blocks-checked",
 		"oracle-tss-requests", "oracle-tss-result-signings-paid", "oracle-tss-result-signing-refused:limit-exhausted", "oracle-tss-resolved-without-success"} {
